@@ -59,3 +59,5 @@ SPEC = {'id': 'C19',
  'assumptions': ['event counts stay below 2^53 within a period (float64 path of binCount exact)',
                  'each read/atomic add of roundedCounter.total/value is one atomic step (word-sized, aligned)',
                  'the sketch is exact for the set sizes checked (no two masked values share a sparse-index cell)']}
+
+SPEC['thorough_passes'] = 2  # the thorough tier runs the whole harness under this many consecutive seeds
